@@ -24,7 +24,7 @@ import (
 	"verif/internal/model"
 )
 
-const rule = "cases: (published, offset) over boundaries {0,1,2^31-1,2^31,2^32-1} x {0,1,65535} (all 15 pairs every run) and uniform u32 x u16, carried by LeaseSet2, MetaLeaseSet and EncryptedLeaseSet encodings; Lease end dates (ms) below 2^63 incl. 9223372036854/5 (the UnixNano limit); Lease2 seconds over u32 and constructor times outside [0,2^32-1] (negative, 2^32, year 2262+, sub-second fractions, +-2^k +- delta up to the int64 limits, and second counts whose product with 10^3, 10^6 or 10^9 wraps modulo 2^64 into the 32-bit range); offline expiry u32; LeaseSets of 1..16 leases with arbitrary, repeated and boundary dates in random order; expiry one day before / after the start of the run for seven structure kinds. Oracle: math/big - ExpirationTime().Unix() = published+offset (up to 2^32+65534, no wrap), exact second<->millisecond conversions (Lease / Date accessors, NewLease, DateFromTime, NewDateFromMillis, NewDateFromUnix over the whole range below 2^63 ms), NewLease2 rejects out-of-range instead of wrapping, Newest/OldestExpiration are members of the leases and bound all others, IsExpired true at now-86400 s and false at now+86400 s. Non-trivial: published+offset crosses 2^31 or 2^32, a date beyond 2^31 s, or a lease set with >= 2 distinct dates; distinct by field values."
+const rule = "cases: (published, offset) over boundaries {0,1,2^31-1,2^31,2^32-1} x {0,1,65535} (all 15 pairs every run) and uniform u32 x u16, carried by LeaseSet2, MetaLeaseSet and EncryptedLeaseSet encodings; Lease end dates (ms) below 2^63 incl. 9223372036854/5 (the UnixNano limit); Lease2 seconds over u32 and constructor times outside [0,2^32-1] (negative, 2^32, year 2262+, sub-second fractions, +-2^k +- delta up to the int64 limits, and second counts whose product with 10^3, 10^6 or 10^9 wraps modulo 2^64 into the 32-bit range); offline expiry u32; LeaseSets of 1..16 leases with arbitrary, repeated and boundary dates in random order; expiry one day before / after the start of the run for seven structure kinds, and any absolute 32-bit expiry at least a day away from now (uniform, and the landmarks 2^31, 2^32-1, now +- 2^31). Oracle: math/big - ExpirationTime().Unix() = published+offset (up to 2^32+65534, no wrap), exact second<->millisecond conversions (Lease / Date accessors, NewLease, DateFromTime, NewDateFromMillis, NewDateFromUnix over the whole range below 2^63 ms), NewLease2 rejects out-of-range instead of wrapping, Newest/OldestExpiration are members of the leases and bound all others, IsExpired true at now-86400 s and false at now+86400 s. Non-trivial: published+offset crosses 2^31 or 2^32, a date beyond 2^31 s, or a lease set with >= 2 distinct dates; distinct by field values."
 
 var now time.Time
 
@@ -42,6 +42,7 @@ type Case struct {
 	Nanos     int64    `json:"nanos,omitempty"`
 	Dates     []uint64 `json:"dates,omitempty"`
 	Delta     int64    `json:"delta,omitempty"` // expired: seconds relative to the start of the run
+	At        uint32   `json:"at,omitempty"`    // expired: absolute expiry (seconds) instead of Delta; skipped when within a day of now
 }
 
 func headerBytes(kind string, published uint32, offset uint16) []byte {
@@ -283,6 +284,14 @@ func checkExtremes(c Case, r *ev.Rec) error {
 }
 
 func checkExpired(c Case, r *ev.Rec) error {
+	if c.At != 0 {
+		c.Delta = int64(c.At) - now.Unix()
+		if c.Delta > -86400 && c.Delta < 86400 || c.At < 700 {
+			r.Class("expired:absolute-within-a-day-of-now")
+			return nil
+		}
+		r.Class("expired:absolute")
+	}
 	at := now.Add(time.Duration(c.Delta) * time.Second)
 	want := c.Delta < 0
 	secs := uint32(at.Unix())
@@ -428,6 +437,13 @@ func genCase(t *rapid.T) Case {
 		}
 	case "expired":
 		c.Delta = rapid.SampledFrom([]int64{-86400, 86400, -86400 * 30, 86400 * 30, -86401, 86401}).Draw(t, "delta")
+		switch rapid.IntRange(0, 3).Draw(t, "abs") {
+		case 0: // any representable expiry, and the 32-bit landmarks
+			c.At = rapid.Uint32Range(700, 1<<32-1).Draw(t, "at")
+		case 1:
+			nowS := uint32(now.Unix())
+			c.At = rapid.SampledFrom([]uint32{700, 1 << 30, 1<<31 - 1, 1 << 31, 1<<31 + 1, 1<<32 - 1, 1<<32 - 2, nowS + 1<<31 - 1, nowS + 1<<31, nowS + 1<<31 + 1, nowS - 1<<31, nowS + 1<<30, 4000000000}).Draw(t, "atb")
+		}
 	}
 	return c
 }
@@ -475,6 +491,12 @@ func TestEnumBoundaries(t *testing.T) {
 		}
 		for _, d := range []int64{-86400, 86400} {
 			if err := prop.One(Case{Kind: "expired", Delta: d}); err != nil {
+				return err
+			}
+		}
+		nowS := uint32(now.Unix())
+		for _, at := range []uint32{700, 1 << 30, 1<<31 - 1, 1 << 31, 1<<31 + 1, 1<<32 - 1, nowS + 1<<31 - 1, nowS + 1<<31, nowS + 1<<31 + 1, nowS + 1<<30, 4000000000} {
+			if err := prop.One(Case{Kind: "expired", At: at}); err != nil {
 				return err
 			}
 		}
